@@ -17,6 +17,14 @@
                               si     static inline int h(void) { ... }
                               eidef  extern inline int h(void) { ... }  (external definition)
                               idef   inline int h(void) { ... }         (inline definition, 6.7.4p7)
+   and names g inside its accessor functions through one of four scopes (field ga):
+     file   the file-scope declaration is visible
+     be     { extern int g; ... g ... }                     a block-scope extern (6.2.2p4: same object)
+     hid    { int g = 5; { extern int g; ... g ... } }      a block-scope extern behind an automatic object:
+     hids   { static int g = 5; { extern int g; ... } }     or a block-scope static: the visible prior declaration
+                                                            has no linkage, so this is the external g (6.2.2p4)
+   (hid/hids only where g has external linkage: next to an internal g they are undefined, 6.2.2p7).
+   The prediction does not depend on ga: it is the same object.
    Level A is the summary of the unit's symbol table given by Linkage.tla
    (strong / common / undefined / local) followed by ELF symbol resolution:
      static link (default, nocommon, pic, static): two strong definitions are
@@ -41,10 +49,14 @@ GK == {"T", "TT", "D", "E", "ST", "SD"}
 TK == {"T", "D", "E", "SD"}
 HK == {"def", "decl", "sdef", "si", "eidef", "idef"}
 (* three families: one name varies over all pairs, the others stay benign *)
-Benign(u) == [g |-> IF u = 1 THEN "D" ELSE "E", t |-> IF u = 1 THEN "E" ELSE "D", h |-> IF u = 1 THEN "decl" ELSE "def"]
+Benign(u) == [g |-> IF u = 1 THEN "D" ELSE "E", t |-> IF u = 1 THEN "E" ELSE "D", h |-> IF u = 1 THEN "decl" ELSE "def", ga |-> "file"]
+GA == {"be", "hid", "hids"}
+GAOK(k, a) == a \in {"hid", "hids"} => k \notin {"ST", "SD"}
+(* the units that reach g through a block scope; they are paired with the benign other unit only *)
+ScopedKinds(u) == { [Benign(u) EXCEPT !.g = k, !.ga = a] : k \in GK, a \in GA } 
 UnitKinds(u) == { [Benign(u) EXCEPT !.g = k] : k \in GK } \cup { [Benign(u) EXCEPT !.t = k] : k \in TK }
                 \cup { [Benign(u) EXCEPT !.h = k] : k \in HK }
-                \cup { [g |-> a, t |-> b, h |-> c] : a \in {"T", "SD"}, b \in {"D", "SD"}, c \in {"def", "si"} }
+                \cup { [g |-> a, t |-> b, h |-> c, ga |-> "file"] : a \in {"T", "SD"}, b \in {"D", "SD"}, c \in {"def", "si"} }
 
 G(u) == 11 * u       W(u) == 30 + 10 * u
 AnyIdef(us) == \E i \in DOMAIN us : us[i].h = "idef"
@@ -110,15 +122,21 @@ BothStrong(us, c) == \/ GSym(us[1].g, 1, c).s = "strong" /\ GSym(us[2].g, 2, c).
                      \/ TSym(us[1].t, 1).s = "strong" /\ TSym(us[2].t, 2).s = "strong"
                      \/ HSym(us[1].h, us, 1).s = "strong" /\ HSym(us[2].h, us, 2).s = "strong"
 InDomain(us, c) == /\ \A i \in 1..2 : us[i].h = "idef" => us[3 - i].h \in {"def", "eidef"}
+                   /\ \A i \in 1..2 : GAOK(us[i].g, us[i].ga)
                    /\ c = "shared" => ~BothStrong(us, c)
 
 Init == units = <<>> /\ cfg \in Configs /\ res = "-"
 AddUnit(k) == /\ Len(units) < 2 /\ units' = Append(units, k) /\ UNCHANGED <<cfg, res>>
+              /\ (Len(units) = 1 /\ units[1].ga # "file") => k = Benign(2)
 Link == /\ Len(units) = 2 /\ res = "-" /\ InDomain(units, cfg)
         /\ res' = Predict(units, cfg).link
         /\ UNCHANGED <<units, cfg>>
         /\ Emit => CSVWrite("%1$s", <<ToJson([cfg |-> cfg, u1 |-> units[1], u2 |-> units[2], pred |-> Predict(units, cfg)])>>, IOEnv.OUT)
-Next == (\E k \in UnitKinds(Len(units) + 1) : AddUnit(k)) \/ Link
+Next == \/ \E k \in UnitKinds(Len(units) + 1) : AddUnit(k)
+        \/ \E k \in ScopedKinds(Len(units) + 1) : /\ GAOK(k.g, k.ga)
+                                                  /\ Len(units) = 1 => units[1] = Benign(1)
+                                                  /\ AddUnit(k)
+        \/ Link
 Spec == Init /\ [][Next]_vars
 
 ----------------------------------------------------------------------------
